@@ -81,6 +81,26 @@ def replay_box(arg):
         if abs(r.center_distance.value - cd) > 1e-12 or abs(r.iou_2d.value - iou2) > 1e-12 or abs(r.iou_3d.value - iou3) > 1e-12 or abs(r.plane_distance.value - pd) > 1e-12:
             mism.append(("object-result-attributes", "DynamicObjectWithPerceptionResult scores differ from MatchingMethod values", rep))
         if label == "as-is":
+            # the same pair stored in the MAP frame under two ego poses, transforms supplied: plane distance picks the ground truth's
+            # side nearest to the EGO (not to the map origin)
+            from pyquaternion import Quaternion
+            from perception_eval.common.schema import FrameID
+            from perception_eval.evaluation.matching import PlaneDistanceMatching
+            from ..build import EgoPose
+
+            for ego in (EgoPose(40.0, -25.0, 0.0, math.atan2(0.8, 0.6)), EgoPose(-3.0, 7.0, 0.0, math.pi / 2)):
+                Am, Bm = mk(a, 0, (0, 0, 0)), mk(b, 0, (0, 0, 0))
+                for o_ in (Am, Bm):
+                    p_, y_ = ego.to_map(o_.state.position, o_.state.orientation.yaw_pitch_roll[0])
+                    o_.state.position = p_
+                    o_.state.orientation = Quaternion(axis=[0, 0, 1], radians=y_)
+                    o_.frame_id = FrameID.MAP
+                try:
+                    pdm = PlaneDistanceMatching(Am, Bm, transforms=ego.transforms()).value
+                    if not any(abs(pdm * pdm - v) < 1e-8 for v in plane):
+                        mism.append(("plane-distance:map-storage", "plane distance^2 %r of the pair stored in map not among specification values %s" % (pdm * pdm, plane), rep))
+                except Exception as ex:
+                    mism.append(("raised", "PlaneDistanceMatching in map storage raised %r" % (ex,), rep))
             fp = list(A.get_footprint().exterior.coords)[:4]
             want = [(p[0] / 2.0, p[1] / 2.0) for p in out["cornersA"]]
             if any(abs(f[0] - w[0]) > 1e-9 or abs(f[1] - w[1]) > 1e-9 for f, w in zip(fp, want)):
